@@ -151,7 +151,38 @@ def gen_sizer_case(rng, kind):
             for i in items:
                 i[1] = float(rng.choice([1, -1, 2, -2]))
             param = float(sum(abs(i[1]) for i in items)) or 1.0
-    return dict(kind=kind, equity=equity, param=param, fee=fee, items=items)
+    if items and all(i[2] for i in items) and rng.random() < 0.10:
+        # weight sums a hair away from the value at which rescaling is the identity (1 for the long-only sizer, the
+        # gross leverage for the long/short one), with equity/price ratios large enough for the hair to be whole shares
+        eps = rng.choice([1e-9, 1e-7, 1e-6, 4e-6, 9e-6, 2e-5, 1e-4]) * rng.choice([1, -1])
+        raw = [rng.choice([1.0, 1.0, 2.0, 3.0, rng.uniform(0.2, 1)]) for _ in items]
+        if kind == 'dw':
+            tgt = 1.0
+            for i, r in zip(items, raw):
+                i[1] = r / sum(raw) * (tgt + eps)
+            param = rng.choice([0.0, 0.0, 0.05])
+        else:
+            param = rng.choice([1.0, 1.0, 2.0, 0.5])
+            for i, r in zip(items, raw):
+                i[1] = r / sum(raw) * (param + eps) * rng.choice([1, 1, -1])
+        equity = rng.choice([1e6, 1e7, 1e9, 3.3e8])
+        for i in items:
+            i[2] = rng.choice([1.0, 0.5, 2.0, 0.25, round(rng.uniform(0.5, 3), 2)])
+        fee = ['Z'] if rng.random() < 0.7 else fee
+    case = dict(kind=kind, equity=equity, param=param, fee=fee, items=items)
+    if items and rng.random() < 0.15:
+        # the same sizer object served earlier calls; with `same_dict` the caller's dictionary object is re-used and
+        # modified in place between calls (the sizer is specified as a function of the weights it is given now)
+        hist = []
+        for _ in range(rng.randint(1, 3)):
+            h = []
+            for a, w, p in items:
+                if rng.random() < 0.85:
+                    h.append([a, rng.choice([w, -w, 0.0, w * 2, rng.uniform(-1, 1) if kind == 'ls' else rng.uniform(0, 1), 1.0]), p])
+            hist.append(h)
+        case['history'] = hist
+        case['same_dict'] = rng.random() < 0.6
+    return case
 
 
 def gen_pcm_case(rng):
@@ -211,7 +242,20 @@ def run_sizer(case):
     except ValueError:
         res['new'] = 'ValueError'
         return res
-    weights = collections.OrderedDict((a, w) for a, w, p in case['items'])
+    weights = collections.OrderedDict()
+    for h in case.get('history', []):
+        if not case.get('same_dict'):
+            weights = collections.OrderedDict()
+        weights.clear()
+        weights.update((a, w) for a, w, p in h)
+        try:
+            s(ts(MON_OPEN), weights)
+        except Exception:
+            pass
+    if not case.get('same_dict'):
+        weights = collections.OrderedDict()
+    weights.clear()
+    weights.update((a, w) for a, w, p in case['items'])
     try:
         r = s(ts(MON_OPEN), weights)
         res['out'] = 'ok'
@@ -472,6 +516,9 @@ def oracle_c10(case, real):
     E, f = F(case['equity']), fee_rate(case['fee'])
     S = sum(F(w) for a, w, p in items)
     q = dict((a, x) for a, x in real['qty'])
+    if sorted(q) != sorted(a for a, w, p in items) or len(real['qty']) != len(items):
+        out.append(dict(what='target keys %r are not the keys of the weights %r' % (sorted(q), sorted(a for a, w, p in items)), key='target-keys'))
+        return out
     for a, x in real['qty']:
         if int(x) != x:
             out.append(dict(what='non-integral quantity %r' % x, key='non-integral'))
@@ -539,6 +586,9 @@ def oracle_c11(case, real):
         return out
     G = sum(abs(F(w)) for a, w, p in items)
     q = dict((a, x) for a, x in real['qty'])
+    if sorted(q) != sorted(a for a, w, p in items) or len(real['qty']) != len(items):
+        out.append(dict(what='target keys %r are not the keys of the weights %r' % (sorted(q), sorted(a for a, w, p in items)), key='target-keys'))
+        return out
     if G == 0:
         if any(x != 0 for x in q.values()):
             out.append(dict(what='all-zero weights gave %r' % real['qty'], key='zero-weights'))
